@@ -1278,7 +1278,7 @@ void ScriptVariable::evalArrayAt(const ScriptVariable &var)
     case variableType_e::SafeContainer:
         index = (size_t)var.longValue();
 
-        if (!*m_data.safeContainerValue || !index || index > m_data.constArrayValue->size) {
+        if (!*m_data.safeContainerValue || !index || index > (*m_data.safeContainerValue)->NumObjects()) {
             throw ScriptVariableErrors::TypeIndexOutOfRange("array", index);
         }
 
